@@ -149,6 +149,12 @@ def hex_setup(case):
         ny += 2 * case['pad'] + 7
     elif case['aspect'] == 'wide':
         nx += 2 * case['pad'] + 7
+    # a grid that shows only part of the aperture (zoomed-in or undersized arrays): segments are clipped by the array edge or lie wholly outside it
+    cy_, cx_ = case.get('crop', [1.0, 1.0])
+    if cy_ < 1:
+        ny = max(3, int(ny * cy_))
+    if cx_ < 1:
+        nx = max(3, int(nx * cx_))
     return rings, d, gap, dx, spp, ny, nx
 
 
@@ -208,7 +214,13 @@ def check_hex(case, ctx):
     # area of each segment
     area = SQ3 / 2 * d * d
     tol = (6 * rseg) * dx + dx * dx
-    for sid, m in zip(ids, cha.local_masks):
+    clipped = case.get('crop', [1.0, 1.0]) != [1.0, 1.0]
+    if clipped:
+        ctx.label('grid-smaller-than-aperture', 'segment-wholly-off-grid' if any(np.asarray(m).size == 0 or not np.asarray(m).any() for m in cha.local_masks) else 'all-segments-on-grid')
+    xlo, xhi, ylo, yhi = float(x.min()), float(x.max()), float(y.min()), float(y.max())
+    for sid, m, c in zip(ids, cha.local_masks, cha.all_centers):
+        if clipped and not (xlo + dx <= c[0] - rseg and c[0] + rseg <= xhi - dx and ylo + dx <= c[1] - rseg and c[1] + rseg <= yhi - dx):
+            continue        # the array edge cuts this hexagon: its area on the grid is not the area of its shape
         a = float(np.count_nonzero(m)) * dx * dx
         ctx.require(abs(a - area) <= tol, 'hex:area', 'segment %d has area %.6g (%d samples), hexagon of flat-to-flat %g has %.6g; tolerance perimeter*dx = %.3g '
                     '(rings=%d gap=%g dx=%g angle=%d grid %dx%d)' % (sid, a, int(np.count_nonzero(m)), d, area, tol, rings, gap, dx, case['angle'], ny, nx))
@@ -257,6 +269,7 @@ def strat_hex(tier):
                              st.lists(st.sampled_from(range(nhex(r))), min_size=1, max_size=4, unique=True).map(sorted)),
         'layout': U.layouts, 'exclude_form': st.sampled_from(['tuple', 'tuple', 'list', 'ndarray']),
         'second': st.sampled_from([False, False, False, True]),
+        'crop': st.one_of(st.just([1.0, 1.0]), st.just([1.0, 1.0]), st.tuples(st.sampled_from([1.0, 0.8, 0.5, 0.3, 0.15]), st.sampled_from([1.0, 0.8, 0.5, 0.3, 0.15])).map(list)),
     }))
 
 
@@ -475,6 +488,7 @@ def strat_hex_opd(tier):
         'exclude': st.one_of(st.just([]), st.just([0]), st.lists(st.integers(0, 18), max_size=5, unique=True).map(sorted)),
         'basis': st.sampled_from(['zernike', 'xy', 'hopkins']), 'picks': st.lists(st.integers(0, 5), min_size=0, max_size=4),
         'piston_at': st.integers(0, 4), 'norm_radius': st.sampled_from([None, None, 1.0, 0.37]), 'seed': U.seeds,
+        'crop': st.one_of(st.just([1.0, 1.0]), st.just([1.0, 1.0]), st.tuples(st.sampled_from([1.0, 0.8, 0.6]), st.sampled_from([1.0, 0.8, 0.6])).map(list)),
         'probe': st.lists(st.integers(0, 18), min_size=1, max_size=3),
         **opd_extras(),
     })
@@ -496,6 +510,10 @@ def check_hex_opd(case, ctx):
     nseg = len(cha.segment_ids)
     if nseg == 0:
         ctx.exclude('every segment excluded')
+    if any(np.asarray(m).size == 0 for m in cha.local_masks):
+        ctx.exclude('a segment lies wholly outside the array (no coordinates to evaluate a basis on)')
+    if case.get('crop', [1.0, 1.0]) != [1.0, 1.0]:
+        ctx.label('grid-smaller-than-aperture')
     orders, pk = orders_of(case['basis'], case['picks'], case['piston_at'])
     ctx.label('basis:' + case['basis'], 'modes:%d' % len(orders), 'norm:' + ('default' if case['norm_radius'] is None else 'given'),
               'layout:' + case.get('layout', 'C'))
